@@ -57,8 +57,8 @@ def check_sink(env, obl, sink, off, exp, key=None):
     return env.check(obl, AND(*conds), key, "bytes written differ from the reference encoding")
 
 
-def unexpected(env, obl, e, variant=""):
-    key = env.exc_key(e) + ((":" + variant) if variant else "")
+def unexpected(env, obl, e, variant="", mode=""):
+    key = env.exc_key(e) + (":short-read-schedule" if mode == "short" else "")
     env.observe("exc", key)
     env.fail(obl, key, "%s raised: %s" % (type(e).__name__, str(e)[:80]))
 
@@ -109,32 +109,43 @@ def _prim(env, kind):
     raise KeyError(kind)
 
 
-def h_prim(env, kind, N, mode):
+def h_prim_write(env, kind, N):
+    """write one primitive from an arbitrary valid writer state, flush: bytes == reference codec"""
     w, sink, off = mk_writer(env, N)
     x, wr, (n, bs), rd, eq = _prim(env, kind)
     ok, e = env.attempt(wr, w)
     if not ok:
-        return unexpected(env, "prim.no-exception", e, kind)
-    env.reach("prim.no-exception")
+        return unexpected(env, "prim.write-no-exception", e, kind)
+    env.check("prim.offset-invariant", AND(w._offset >= 0, w._offset <= N), None, "0 <= _offset <= len(_buffer) after the call")
     ok, e = env.attempt(w.flush)
     if not ok:
-        return unexpected(env, "prim.no-exception", e, kind)
-    env.check("prim.offset-invariant", AND(w._offset >= 0, w._offset <= N), None, "0 <= _offset <= len(_buffer) after the call")
+        return unexpected(env, "prim.write-no-exception", e, kind)
+    env.reach("prim.write-no-exception")
     exp = env.data().append(bs, n)
     check_sink(env, "prim.bytes==reference", sink, off, exp)
     env.observe("out", [sink.at(off + i) for i in range(len(bs))])
     env.observe("outlen", sink.length)
-    # read back through a CodedInputStream with an arbitrary offset and refill schedule
-    payload = [sink.at(off + i) for i in range(len(bs))]
-    r, src, p, t, (ok, e) = mk_reader(env, N, payload, n, mode)
+
+
+def h_prim_read(env, kind, N, mode):
+    """read one primitive from its reference encoding placed at an arbitrary buffer offset, arbitrary
+    refill schedule: value == encoded value and exactly its bytes are consumed"""
+    x, wr, (n, bs), rd, eq = _prim(env, kind)
+    sfx = "[short-reads]" if mode == "short" else ""
+    n = env.split(n, 1, len(bs))
+    r, src, p, t, (ok, e) = mk_reader(env, N, bs, n, mode)
     if not ok:
-        return unexpected(env, "prim.read-no-exception", e, "skip")
+        return unexpected(env, "prim.read-no-exception" + sfx, e, "skip", mode)
     ok, v = env.attempt(rd, r)
     if not ok:
-        return unexpected(env, "prim.read-no-exception", v, kind)
-    env.reach("prim.read-no-exception")
-    env.check("prim.read==written", eq(v, x), None, "value read back differs from the value written")
-    env.check("prim.consumed==produced", EQ(consumed(r, src), p + n), None, "reader consumed a different number of bytes")
+        return unexpected(env, "prim.read-no-exception" + sfx, v, kind, mode)
+    env.reach("prim.read-no-exception" + sfx)
+    env.check("prim.read==written" + sfx, eq(v, x), None, "value read differs from the value whose reference encoding was supplied")
+    env.check("prim.consumed==produced" + sfx, EQ(consumed(r, src), p + n), None, "reader consumed a different number of bytes")
+    env.check("prim.reader-invariant" + sfx, AND(r._offset >= 0, r._offset <= r._last_read_count, r._last_read_count <= N), None, "0 <= _offset <= _last_read_count <= len(_buffer)")
+    if kind in ("f32", "f64", "c32", "c64"):
+        nb = 4 if kind in ("f32", "c32") else 8
+        v = [env.fbits(c, nb) for c in v] if isinstance(v, tuple) else env.fbits(v, nb)
     env.observe("value", v if not isinstance(v, tuple) else list(v))
 
 
@@ -153,16 +164,17 @@ def h_bytes(env, N, mode, direct=False):
     env.reach("bytes.no-exception")
     exp = env.data().append(list(payload))
     check_sink(env, "bytes.bytes==reference", sink, off, exp)
+    sfx = "[short-reads]" if mode == "short" else ""
     which = env.choice("reader", 2)
     r, src, p, t, (ok, e) = mk_reader(env, N, list(payload), L, mode)
     if not ok:
-        return unexpected(env, "bytes.read-no-exception", e, "skip")
+        return unexpected(env, "bytes.read-no-exception" + sfx, e, "skip", mode)
     ok, v = env.attempt(r.read_view if which == 0 else r.read_bytearray, L)
     if not ok:
-        return unexpected(env, "bytes.read-no-exception", v, "read_view" if which == 0 else "read_bytearray")
-    env.reach("bytes.read-no-exception")
-    env.check("bytes.read==written", v == payload, None, "bytes read back differ")
-    env.check("bytes.consumed==produced", EQ(consumed(r, src), p + L))
+        return unexpected(env, "bytes.read-no-exception" + sfx, v, "", mode)
+    env.reach("bytes.read-no-exception" + sfx)
+    env.check("bytes.read==written" + sfx, v == payload, None, "bytes read back differ")
+    env.check("bytes.consumed==produced" + sfx, EQ(consumed(r, src), p + L))
 
 
 # ------------------------------------------------------------------------------------------------
@@ -310,7 +322,7 @@ def _inrange(t, v):
     return True
 
 
-def enc(env, t, v, out):
+def enc(env, t, v, out, split=False):
     """reference encoding (binary.md) of v appended to `out` (a data builder)"""
     k = t[0]
     R = env.ref
@@ -318,10 +330,10 @@ def enc(env, t, v, out):
         out.append(R.fixed(v, 1)[1])
     elif k in ("uint16", "uint32", "uint64", "size"):
         n, bs = R.uvarint(v, 64)
-        out.append(bs, n)
+        out.append(bs, env.split(n, 1, len(bs)) if split else n)
     elif k in ("int16", "int32", "int64"):
         n, bs = R.svarint(v)
-        out.append(bs, n)
+        out.append(bs, env.split(n, 1, len(bs)) if split else n)
     elif k == "bool":
         out.append(R.bool(v)[1])
     elif k in ("f32", "f64"):
@@ -343,7 +355,7 @@ def enc(env, t, v, out):
             out.append([0])
         else:
             out.append([1])
-            enc(env, t[1], v, out)
+            enc(env, t[1], v, out, split)
     elif k == "union":
         if v is None:
             out.append([t[1].index(None)])
@@ -351,24 +363,24 @@ def enc(env, t, v, out):
             nn = [i for i, c in enumerate(t[1]) if c is not None]
             tag = nn[type(v).index]
             out.append([tag])
-            enc(env, t[1][tag], v.value, out)
+            enc(env, t[1][tag], v.value, out, split)
     elif k == "vector":
         out.append(list(_c_uvarint(len(v))))
         for e in v:
-            enc(env, t[1], e, out)
+            enc(env, t[1], e, out, split)
     elif k == "fixedvector":
         for e in v:
-            enc(env, t[1], e, out)
+            enc(env, t[1], e, out, split)
     elif k == "map":
         out.append(list(_c_uvarint(len(v))))
         for kk, vv in v.items():
-            enc(env, t[1], kk, out)
-            enc(env, t[2], vv, out)
+            enc(env, t[1], kk, out, split)
+            enc(env, t[2], vv, out, split)
     elif k == "enum":
-        enc(env, t[1], v.value, out)
+        enc(env, t[1], v.value, out, split)
     elif k == "record":
         for ft, e in zip(t[1], v):
-            enc(env, ft, e, out)
+            enc(env, ft, e, out, split)
     else:
         raise KeyError(k)
     return out
@@ -430,26 +442,29 @@ def veq(env, t, a, b):
     raise KeyError(k)
 
 
-def obs_val(t, v):
+def obs_val(env, t, v):
     k = t[0]
     if v is None:
         return None
     if k == "union":
-        return [type(v).__name__, obs_val([c for c in t[1] if c is not None][type(v).index], v.value)]
+        return [type(v).__name__, obs_val(env, [c for c in t[1] if c is not None][type(v).index], v.value)]
     if k == "enum":
         return [v._name_, v.value]
     if k in ("vector", "fixedvector", "stream"):
-        return [obs_val(t[1], x) for x in v]
+        return [obs_val(env, t[1], x) for x in v]
     if k == "optional":
-        return obs_val(t[1], v)
+        return obs_val(env, t[1], v)
     if k == "record":
-        return [obs_val(ft, x) for ft, x in zip(t[1], v)]
+        return [obs_val(env, ft, x) for ft, x in zip(t[1], v)]
     if k == "map":
-        return [[obs_val(t[1], a), obs_val(t[2], b)] for a, b in v.items()]
+        return [[obs_val(env, t[1], a), obs_val(env, t[2], b)] for a, b in v.items()]
     if k in ("time", "datetime", "date"):
         return str(v)
+    if k in ("f32", "f64"):
+        return env.fbits(v, 4 if k == "f32" else 8)
     if k in ("c32", "c64"):
-        return [v.real, v.imag]
+        nb = 4 if k == "c32" else 8
+        return [env.fbits(v.real, nb), env.fbits(v.imag, nb)]
     return v
 
 
@@ -457,8 +472,21 @@ def T(x):
     return x  # type descriptors are nested lists (json-able); used as-is
 
 
-def h_ser(env, t, N, mode, maxlen, variant="list"):
-    t = T(t)
+def stream_expected(env, t, v, variant, exp, split=False):
+    # block structure produced by the Python writer: non-empty list -> one block, iterable -> blocks of one
+    if variant == "list" and len(v) > 0:
+        exp.append(list(_c_uvarint(len(v))))
+        for x in v:
+            enc(env, t[1], x, exp, split)
+    else:
+        for x in v:
+            exp.append([1])
+            enc(env, t[1], x, exp, split)
+    exp.append([0])
+    return exp
+
+
+def h_ser_write(env, t, N, maxlen, variant="list"):
     cache = {}
     ser = mk_ser(env, t, cache)
     v, inr = gen(env, t, "v", maxlen, cache)
@@ -474,7 +502,6 @@ def h_ser(env, t, N, mode, maxlen, variant="list"):
             env.check("ser.range-error-only-if-out-of-range", NOT(inr), env.exc_key(e) + ":in-range-value-rejected", "range error raised for a value whose leaves are all in range")
             return
         return unexpected(env, "ser.write-no-unexpected-exception", e, variant if t[0] == "stream" else "")
-    env.reach("ser.write-no-unexpected-exception")
     env.check("ser.out-of-range-is-rejected", inr, "py:%s:out-of-range-value-accepted" % t[0], "write accepted a value outside the range of its type")
     if t[0] == "stream":
         ok, e = env.attempt(lambda: (w.ensure_capacity(1), w.write_byte_no_check(0)))  # what _end_stream does
@@ -482,34 +509,39 @@ def h_ser(env, t, N, mode, maxlen, variant="list"):
         ok, e = env.attempt(w.flush)
     if not ok:
         return unexpected(env, "ser.write-no-unexpected-exception", e, "flush")
+    env.reach("ser.write-no-unexpected-exception")
     exp = env.data()
     if t[0] == "stream":
-        # block structure produced by the Python writer: list -> one block, iterable -> blocks of one
-        if variant == "list" and len(v) > 0:
-            exp.append(list(_c_uvarint(len(v))))
-            for x in v:
-                enc(env, t[1], x, exp)
-        else:
-            for x in v:
-                exp.append([1])
-                enc(env, t[1], x, exp)
-        exp.append([0])
+        stream_expected(env, t, v, variant, exp)
     else:
         enc(env, t, v, exp)
     check_sink(env, "ser.bytes==reference", sink, off, exp)
     env.observe("outlen", sink.length)
     env.observe("out", [sink.at(off + i) for i in range(exp.cap)])
-    payload = [sink.at(off + i) for i in range(exp.cap)]
+
+
+def h_ser_read(env, t, N, mode, maxlen, variant="list"):
+    cache = {}
+    sfx = "[short-reads]" if mode == "short" else ""
+    ser = mk_ser(env, t, cache)
+    v, inr = gen(env, t, "v", maxlen, cache)
+    env.assume(inr)  # the reader is fed valid encodings of in-range values
+    exp = env.data()
+    if t[0] == "stream":
+        stream_expected(env, t, v, variant, exp, True)
+    else:
+        enc(env, t, v, exp, True)
+    payload = [exp.at(i) for i in range(exp.cap)]
     r, src, p, tt, (ok, e) = mk_reader(env, N, payload, exp.length, mode)
     if not ok:
-        return unexpected(env, "ser.read-no-exception", e, "skip")
+        return unexpected(env, "ser.read-no-exception" + sfx, e, "skip", mode)
     ok, rv = env.attempt((lambda: list(ser.read(r))) if t[0] == "stream" else (lambda: ser.read(r)))
     if not ok:
-        return unexpected(env, "ser.read-no-exception", rv, "")
-    env.reach("ser.read-no-exception")
-    env.check("ser.read==written", veq(env, t, v, rv), None, "value read back differs from the value written")
-    env.check("ser.consumed==produced", EQ(consumed(r, src), p + exp.length), None, "reader consumed a different number of bytes")
-    env.observe("value", obs_val(t, rv))
+        return unexpected(env, "ser.read-no-exception" + sfx, rv, "", mode)
+    env.reach("ser.read-no-exception" + sfx)
+    env.check("ser.read==written" + sfx, veq(env, t, v, rv), None, "value read differs from the value whose reference encoding was supplied")
+    env.check("ser.consumed==produced" + sfx, EQ(consumed(r, src), p + exp.length), None, "reader consumed a different number of bytes")
+    env.observe("value", obs_val(env, t, rv))
 
 
 # ------------------------------------------------------------------------------------------------
